@@ -3,6 +3,7 @@ import ast
 import re
 
 from ..core import AnalysisError
+from .shared_py import inn
 from ..cxxlib import nows, stmts_of, if_parts, int_value
 from ..pyfront import unparse
 from .. import templ
@@ -142,7 +143,7 @@ def python_side(ctx, L):
     f = m.func('field_to_string')
     src = unparse(f.node)
     consts = [n.value for n in ast.walk(f.node) if isinstance(n, ast.Constant) and isinstance(n.value, str)]
-    L.check("single_indent_level = ' ' * 2" in src, 'C18.python-format', 'field_to_string|indent', f.site(),
+    L.check(inn("single_indent_level = ' ' * 2", src), 'C18.python-format', 'field_to_string|indent', f.site(),
             'indentation is two spaces per level', '')
     chain = [s for s in f.node.body if isinstance(s, ast.If)]
     if len(chain) != 1:
@@ -176,13 +177,13 @@ def python_side(ctx, L):
     # omission rules
     s = m.func('struct.__str__.to_str')
     t = unparse(s.node)
-    ok = 'for field in self._descriptor:' in t and 'value = getattr(self, field.name, None)' in t \
-        and 'if value is not None:' in t and 'yield field_to_string(field.name, field.type, value)' in t
+    ok = inn('for field in self._descriptor:', t) and inn('value = getattr(self, field.name, None)', t) \
+        and inn('if value is not None:', t) and inn('yield field_to_string(field.name, field.type, value)', t)
     L.check(ok, 'C18.omission-rules', 'struct.__str__', s.site(),
             'fields in declaration order; absent optionals and counters (whose attribute was deleted) are skipped', t)
     u = m.func('union.__str__')
     t = unparse(u.node)
-    ok = 'name = self._discriminated.name' in t and 'return field_to_string(name, self._discriminated.type, value)' in t
+    ok = inn('name = self._discriminated.name', t) and inn('return field_to_string(name, self._discriminated.type, value)', t)
     L.check(ok, 'C18.omission-rules', 'union.__str__', u.site(), 'only the discriminated arm is rendered', t)
 
 
@@ -207,12 +208,12 @@ def generator_print(ctx, L):
         L.check(len(em) == 1 and em[0].text == 'do_print(out, indent, "{0}", x.{0});\n' and em[0].args == ['m.name'],
                 'C18.omission-rules', 'generate_struct_print|plain', f.site(), 'plain fields print under their own name', str(em))
         arr = unparse(br[0].body)
-        L.check("if m.type_name == 'byte':\n    inner = inner.join(('std::make_pair(', ')'))" in arr,
+        L.check(inn("if m.type_name == 'byte':\n    inner = inner.join(('std::make_pair(', ')'))", arr),
                 'C18.omission-rules', 'generate_struct_print|bytes', f.site(),
                 'exactly byte arrays are wrapped in std::make_pair (printed as a quoted string)', arr[:200])
-        L.check('text += \'do_print(out, indent, "{0}", {1});\\n\'.format(m.name, inner)' in arr, 'C18.omission-rules',
+        L.check(inn('text += \'do_print(out, indent, "{0}", {1});\\n\'.format(m.name, inner)', arr), 'C18.omission-rules',
                 'generate_struct_print|array', f.site(), 'arrays print under the field name', arr[-200:])
-        L.check("std::min(x.{0}.size(), size_t({1}))" in arr, 'C18.omission-rules', 'generate_struct_print|limited',
+        L.check(inn("std::min(x.{0}.size(), size_t({1}))", arr), 'C18.omission-rules', 'generate_struct_print|limited',
                 f.site(), 'a limited array prints at most its limit', '')
     u = m.func('generate_union_print')
     em = [e for e in templ.string_templates(u.node) if 'do_print' in e.text]
@@ -221,6 +222,6 @@ def generator_print(ctx, L):
             'only the discriminated arm is printed, under its own name', str(em))
     e = m.func('_CppTranslator.translate_enum')
     t = unparse(e.node)
-    ok = '\'case {0}: return "{0}";\\n\'.format(m.name) for m in node.members' in t and "'default: return 0;\\n'" in t
+    ok = inn('\'case {0}: return "{0}";\\n\'.format(m.name) for m in node.members', t) and inn("'default: return 0;\\n'", t)
     L.check(ok, 'C18.enum-literals', '_CppTranslator.translate_enum', e.site(),
             'to_literal must name every enumerator (and return 0 only for unknown values)', '')
